@@ -103,6 +103,12 @@ def plain_result(v, path, ids, issues):
     from awesomeyaml.nodes.node import ConfigNode
     from awesomeyaml.utils import Bunch
     ids.append([path, id(v)])
+    if len(path) > 12 or len(ids) > 20000:
+        # a result that contains itself (seen with a half-evaluated placeholder handed out by !eval), or one that is
+        # unreasonably large for the configs of this harness (depth <= 5): do not walk it any further
+        if not any(i[0] == "cyclic-or-huge-result" for i in issues):
+            issues.append(["cyclic-or-huge-result", path[:4]])
+        return {"k": "other:cyclic", "v": list(S.NOVAL), "ch": []}
     if isinstance(v, ConfigNode):
         issues.append(["node-leak", path, type(v).__name__])
     if isinstance(v, dict):
